@@ -14,7 +14,7 @@ import "testing"
 func c05Params() GenParams {
 	return GenParams{SnapEmptyPct: 10, RecreatePct: 15, MinOps: 6, MaxOps: 40, WKV: 1, WCreate: 4, WDrop: 2, WAdd: 12, WBatch: 6, WImport: 2, WDel: 5, WMeta: 4, WReinforce: 1, WEvolve: 3,
 		WLink: 4, WUnlink: 1, WConfig: 1, WAutoLinks: 1, WSnapshot: 2, WRewrite: 1, WCompress: 4, WMaint: 1, WFlush: 0, WRestart: 3,
-		InvalidPct: 45, ForceRestart: true, AllowInt8: true, AllowMemory: true, AllowAutoLink: true, AllowText: true, SmallEfC: true, BigBatch: true, NullMeta: true}
+		InvalidPct: 45, ForceRestart: true, AllowInt8: true, AllowMemory: true, AllowAutoLink: true, AllowText: true, SmallEfC: true, BigBatch: true, NullMeta: true, ReplacePct: 20}
 }
 
 func TestVerif_C05_rejected(t *testing.T) {
